@@ -453,7 +453,11 @@ class JacobianAssembly:
         # Iterate over outputs
         for row_index, function in enumerate(functions):
             column = 0
-            function_jacobian = self.disciplines[function].jac[function]
+            # A function that does not depend on the variables is not differentiated
+            # by its discipline: its Jacobian blocks are null.
+            function_jacobian = self.disciplines[function].jac.get(
+                function, READ_ONLY_EMPTY_DICT
+            )
             # Iterate over inputs
             for column_index, variable in enumerate(variables):
                 jacobian = function_jacobian.get(variable, None)
